@@ -33,7 +33,7 @@ Print Assumptions C01_div_overflow_wraps.
 (* the reference prescribes a behaviour for every accepted program: a program accepted by the reference type checker
    never gets stuck, whatever the fuel (type safety of FerretCore) — the oracle of the correspondence run is total *)
 From FV Require Import Core.Typing Proofs.SafetyP.
-Theorem C01_reference_total : forall p, check_prog p = TOk tt -> forall fuel, run p fuel <> Stuck.
+Theorem C01_reference_total : forall structs p, check_prog structs p = TOk tt -> forall fuel, run structs p fuel <> Stuck.
 Proof. exact type_safety. Qed.
 Print Assumptions C01_reference_total.
 
